@@ -4,6 +4,8 @@ Case lines
   `<id> c10|b10 <period> <input-hex>` LZ10CompressionFormat::compress   → `ok <hex> rt=ok`
   `<id> c13|b13 <period> <input-hex>` LZ13CompressionFormat::compress   → `ok <hex> rt=ok alloc=ok`
   (`c*`: judged against the C08/C09 clauses; `b*`: against the C10 size bounds)
+  `<id> n10|n13 <filename-hex>`       is_compressed_filename (struct and enum) → `ok 0|1 w=same`
+  Every implementation line ends with `w=same` or `w=<result of the other public entry point>` (see `judgeBoth`).
   `<id> e10|e13 <stream-hex>`         setup step of a second-use sequence (several lines with one id): LZ10 / LZ13
       decompress of a usually malformed stream; printed like d10 / d13, judged only for "no panic"
   `<id> t10|t13 <kind> <n> s<seed>`   as `c*` on a generated input at the top of the domain (`genTop`): 2^24-1, 2^24-2,
@@ -148,8 +150,8 @@ def modelCompress (is13 : Bool) (x : BA) : String :=
         | .ok y => if baEq y x then "rt=ok" else "rt=bad"
         | _ => "rt=bad"
       let alloc := if req ≤ 13 + x.size + x.size / 8 then "alloc=ok" else "alloc=big"
-      "ok " ++ hexOfBytes out.toList ++ " " ++ rt ++ " " ++ alloc
-    | .err e => "err " ++ e.name
+      "ok " ++ hexOfBytes out.toList ++ " " ++ rt ++ " " ++ alloc ++ " w=same"
+    | .err e => "err " ++ e.name ++ " w=same"
     | .panic => "panic"
   else
     match compress10 x with
@@ -157,8 +159,8 @@ def modelCompress (is13 : Bool) (x : BA) : String :=
       let rt := match decompress10 out.toList with
         | .ok y => if baEq y x then "rt=ok" else "rt=bad"
         | _ => "rt=bad"
-      "ok " ++ hexOfBytes out.toList ++ " " ++ rt
-    | .err e => "err " ++ e.name
+      "ok " ++ hexOfBytes out.toList ++ " " ++ rt ++ " w=same"
+    | .err e => "err " ++ e.name ++ " w=same"
     | .panic => "panic"
 
 /-- FNV-1a (64 bit) of the output, for the cases whose output is too large to print
@@ -177,8 +179,8 @@ def modelDecode (kind : String) (summ : Bool) (s : Bytes) : String :=
     | "f10" => Format.decompress .lz10 s
     | _ => Format.decompress .lz13 s
   match r with
-  | .ok out => "ok " ++ outRepr summ out ++ " x=ok"
-  | .err e => "err " ++ e.name ++ " x=ok"
+  | .ok out => "ok " ++ outRepr summ out ++ " x=ok w=same"
+  | .err e => "err " ++ e.name ++ " x=ok w=same"
   | .panic => "panic"
 
 /-- What the specification demands of a decoder on the bare stream `s`. -/
@@ -215,6 +217,33 @@ def oracleDecode (kind : String) (summ : Bool) (s : Bytes) (impl : List String) 
     else judgeStream summ s impl
   else judgeStream summ s impl
 
+/-- Every implementation line ends with `w=same` when the other public entry point (the
+`CompressionFormat` enum wrapper for the struct ops, the struct for f10/f13) returned exactly
+the same result; otherwise the field carries that other result, and the same oracle judges it
+too (model: `Format.compress` / `Format.decompress` *are* the struct functions). -/
+def judgeBoth (judge : List String → String) (impl : List String) : String :=
+  let v := judge impl
+  match impl.find? (·.startsWith "w=") with
+  | none => v
+  | some w =>
+    if w == "w=same" || v.startsWith "FAIL" then v else
+    let id := impl.headD "?"
+    let r := (w.drop 2).toString
+    let impl' :=
+      if r == "panic" then [id, "panic"]
+      else if r == "err" then [id, "err", "Invalid"]
+      else [id, "ok", (r.drop 3).toString, "rt=ok", "alloc=ok", "x=ok"]
+    let v' := judge impl'
+    if v'.startsWith "FAIL" then "FAIL through CompressionFormat: " ++ (v'.drop 5).toString
+    else v ++ " wrapper-differs"
+
+/-- `is_compressed_filename`, written from the documentation: `.cms` / `.cmp` for LZ10, `.lz` for LZ13. -/
+def oracleName (lz10 : Bool) (name : String) (impl : List String) : String :=
+  let want := if lz10 then name.endsWith ".cms" || name.endsWith ".cmp" else name.endsWith ".lz"
+  match impl with
+  | [_, "ok", v, "w=same"] => if v == (if want then "1" else "0") then "ok" else "FAIL is_compressed_filename"
+  | _ => "FAIL is_compressed_filename differs between the struct and the enum wrapper"
+
 def family : Family where
   State := Unit
   init := ()
@@ -222,34 +251,39 @@ def family : Family where
     match c with
     | [_, "c10", _, x] =>
       let x := (hexOrBad x).toArray
-      ((), modelCompress false x, oracleCompress false x i)
+      ((), modelCompress false x, judgeBoth (oracleCompress false x) i)
     | [_, "c13", _, x] =>
       let x := (hexOrBad x).toArray
-      ((), modelCompress true x, oracleCompress true x i)
+      ((), modelCompress true x, judgeBoth (oracleCompress true x) i)
     | [_, "b10", p, x] =>
       let x := (hexOrBad x).toArray
-      ((), modelCompress false x, oracleBounds false p.toNat! x i)
+      ((), modelCompress false x, judgeBoth (oracleBounds false p.toNat! x) i)
     | [_, "b13", p, x] =>
       let x := (hexOrBad x).toArray
-      ((), modelCompress true x, oracleBounds true p.toNat! x i)
+      ((), modelCompress true x, judgeBoth (oracleBounds true p.toNat! x) i)
     | [_, "t10", kind, n, seed] =>
       let x := genTop kind.toNat! n.toNat! (UInt64.ofNat (seed.drop 1).toString.toNat!)
-      ((), modelCompress false x, oracleCompress false x i)
+      ((), modelCompress false x, judgeBoth (oracleCompress false x) i)
     | [_, "t13", kind, n, seed] =>
       let x := genTop kind.toNat! n.toNat! (UInt64.ofNat (seed.drop 1).toString.toNat!)
-      ((), modelCompress true x, oracleCompress true x i)
+      ((), modelCompress true x, judgeBoth (oracleCompress true x) i)
     | [_, "g10", kind, r, m, seed, n] =>
       let pat := genPattern kind.toNat! r.toNat! m.toNat! (UInt64.ofNat (seed.drop 1).toString.toNat!)
       let x := periodicInput pat n.toNat!
-      ((), modelCompress false x, oracleBounds false pat.size x i)
+      ((), modelCompress false x, judgeBoth (oracleBounds false pat.size x) i)
     | [_, "g13", kind, r, m, seed, n] =>
       let pat := genPattern kind.toNat! r.toNat! m.toNat! (UInt64.ofNat (seed.drop 1).toString.toNat!)
       let x := periodicInput pat n.toNat!
-      ((), modelCompress true x, oracleBounds true pat.size x i)
+      ((), modelCompress true x, judgeBoth (oracleBounds true pat.size x) i)
     | [_, kind, s] =>
       if kind == "d10" || kind == "d13" || kind == "f10" || kind == "f13" then
         let s := hexOrBad s
-        ((), modelDecode kind false s, oracleDecode kind false s i)
+        ((), modelDecode kind false s, judgeBoth (oracleDecode kind false s) i)
+      else if kind == "n10" || kind == "n13" then
+        let nameB := hexOrBad s
+        let name := String.fromUTF8! (ByteArray.mk nameB.toArray)
+        let fmt := if kind == "n10" then Format.lz10 else Format.lz13
+        ((), s!"ok {if Format.isCompressedFilename fmt nameB then 1 else 0} w=same", oracleName (kind == "n10") name i)
       else if kind == "e10" || kind == "e13" then
         -- setup step of a second-use sequence (usually a failing decompress): only "no panic" is judged here,
         -- the following steps of the same case id carry the property's oracle
@@ -260,7 +294,7 @@ def family : Family where
         -- same entry points, output printed as length + hash (expansions of 16 MiB and more)
         let base := if kind == "h10" then "d10" else if kind == "h13" then "d13" else "f13"
         let s := hexOrBad s
-        ((), modelDecode base true s, oracleDecode base true s i)
+        ((), modelDecode base true s, judgeBoth (oracleDecode base true s) i)
       else ((), "bad-case", "FAIL bad-case")
     | _ => ((), "bad-case", "FAIL bad-case")
 
